@@ -44,8 +44,7 @@ class HookFunction:
         self.hook = hook
         """The hook the function is defined for."""
 
-        self.cycle = False
-        """Cycle detection."""
+        self._active_instances = set()
 
         self.wrapper = wrapper
         """Whether the hook function is a wrapper."""
@@ -63,23 +62,33 @@ class HookFunction:
         """Whether to use this function with the lowest priority."""
         return self._trylast
 
+    @property
+    def cycle(self):
+        """Cycle detection: whether the function is currently executing on some instance."""
+        return len(self._active_instances) > 0
+
     def __call__(self, instance):
         """Call the function as it were a method the provided instance."""
 
-        extra_args = self._determine_extra_args()
-        self.cycle = True
+        key = id(instance)
+        cycle = key in self._active_instances
+        extra_args = self._determine_extra_args(cycle)
+        self._active_instances.add(key)
         try:
             if self.wrapper:
                 gen = self.function(instance, **extra_args)
                 next(gen)
-                gen.send(self.hook.get_result(instance))
+                # evaluate the rest of the chain of the instance's own class, not of the class the wrapper was registered on
+                hook = getattr(type(instance), self.hook.name, self.hook)
+                gen.send(hook.get_result(instance))
                 raise SyntaxError("Wrapper function must only contain one yield expression.")
             else:
                 result = self.function(instance, **extra_args)
         except StopIteration as e:
             result = e.value
         finally:
-            self.cycle = False
+            if not cycle:  # a nested (cycled) call must not clear the mark of the outer one
+                self._active_instances.discard(key)
 
         return result
 
@@ -89,11 +98,11 @@ class HookFunction:
     def __str__(self):
         return f"HookFunction {self.module}.{self.qualname}"
 
-    def _determine_extra_args(self):
+    def _determine_extra_args(self, cycle):
         extra_args = {}
         pars = inspect.signature(self.function).parameters
         if "cycle" in pars:
-            extra_args["cycle"] = self.cycle
+            extra_args["cycle"] = cycle
 
         return extra_args
 
